@@ -4,11 +4,15 @@ import json, os, glob
 ROOT = os.path.dirname(os.path.dirname(os.path.abspath(__file__)))
 props = [json.loads(l)["id"] for l in open(os.path.join(ROOT, "properties.jsonl"))]
 checks, claimed = [], set()
+# only properties the coordinator has accepted (green on the unchanged tree, reviewed) are claimed
+accepted = set(open(os.path.join(ROOT, "checks.d", "CLAIMED")).read().split())
 for p in sorted(glob.glob(os.path.join(ROOT, "checks.d", "C*.json"))):
     c = json.load(open(p))
     if c.get("disabled"):
         continue
     pid = c["property_id"]
+    if pid not in accepted:
+        continue
     claimed.add(pid)
     checks.append({
         "property_id": pid,
